@@ -406,8 +406,8 @@ def audit_recipe_block(key, lines, where):
         if not first or first.group(0) not in SPEC_KEYWORDS:
             raise Undecided("bad recipe: %s: block `%s` must start with a specification keyword" % (where, key))
     elif key.startswith("garg "):
-        if not re.match(r"Ghost\(", text):
-            raise Undecided("bad recipe: %s: ghost argument must be `Ghost(..)`" % where)
+        if not re.match(r"(Ghost|Tracked)\(", text):
+            raise Undecided("bad recipe: %s: ghost argument must be `Ghost(..)` or `Tracked(..)`" % where)
     elif key.startswith("closure "):
         if not (text.startswith("->") or re.match(r"(requires|ensures)\b", text)):
             raise Undecided("bad recipe: %s: closure block must be `-> (name: T) requires.. ensures..`" % where)
